@@ -874,3 +874,112 @@ func hxShadowRegion(base hxShadowBase, layout int, m string, ptrRecv, ptrOp bool
 	}
 	return ""
 }
+
+// ---------------------------------------------------------------- defined types  (type C B)
+//
+// A type defined from another NAMED interpreted type has the fields of that type (and so the methods
+// promoted from its embedded structs) but none of its methods.  Family k: A (embedded struct), B struct{ A; X int },
+// C defined as "type C B", D defined as "type D C".  For every method name, who declares it is a
+// dimension: {A only, A and B, A and C, A B and C, B and C, C only, B only}; all seven are exercised
+// for two names in every run, through every call form (direct, pointer, method value, through an
+// interpreted interface by value and by pointer, fmt.Sprint for String, conversions C(b) / B(c)).
+// Compared with compiled Go only (the selector model has no defined types).
+
+func genHostXDefined(r *rng, tbl map[string][]c05MapEntry) []*c05HostX {
+	hb := &hxBuilder{tbl: tbl}
+	// who declares the name: bit 0 = A, bit 1 = B, bit 2 = C
+	configs := []int{1, 3, 5, 7, 6, 4, 2}
+	names := []string{"M", "N", "String"}
+	for _, n := range append([]string{"Z"}, names...) {
+		fmt.Fprintf(&hb.b, "type KD%s interface{ %s() string }\n\n", n, n)
+	}
+	off := 1 + r.intn(6)
+	// declaration order is a dimension too: all types first and the methods after them (order 0), or every
+	// type directly followed by its methods, so that B's methods exist when "type C B" is met (order 1)
+	for k := 0; k < 2*len(configs); k++ {
+		order := k / len(configs)
+		var typeDecl, methDecl [4]strings.Builder
+		a, b, c, d := fmt.Sprintf("DA%d", k), fmt.Sprintf("DB%d", k), fmt.Sprintf("DC%d", k), fmt.Sprintf("DD%d", k)
+		fmt.Fprintf(&typeDecl[0], "type %s struct{ V int }\n\n", a)
+		fmt.Fprintf(&methDecl[0], "func (r %s) Z() string { return \"%s.Z:\" + strconv.Itoa(r.V) }\n\n", a, a)
+		if r.bool() {
+			fmt.Fprintf(&typeDecl[1], "type %s struct {\n\t%s\n\tX int\n}\n\n", b, a)
+		} else {
+			fmt.Fprintf(&typeDecl[1], "type %s struct {\n\tX int\n\t%s\n}\n\n", b, a)
+		}
+		fmt.Fprintf(&typeDecl[2], "type %s %s\n\n", c, b)
+		fmt.Fprintf(&typeDecl[3], "type %s %s\n\n", d, c)
+		kk := k % len(configs)
+		cfg := map[string]int{"M": configs[kk], "N": configs[(kk+off)%len(configs)], "String": configs[(kk+2*off)%len(configs)]}
+		ptrC := map[string]bool{}
+		for _, n := range names {
+			for bit, t := range []string{a, b, c} {
+				if cfg[n]&(1<<bit) == 0 {
+					continue
+				}
+				rc := "(r " + t + ")"
+				if t == c && r.chance(30) {
+					rc = "(r *" + t + ")"
+					ptrC[n] = true
+				}
+				fmt.Fprintf(&methDecl[bit], "func %s %s() string { return \"%s.%s:\" + strconv.Itoa(r.V) }\n\n", rc, n, t, n)
+			}
+		}
+		if order == 0 {
+			for j := range typeDecl {
+				hb.b.WriteString(typeDecl[j].String())
+			}
+			for j := range methDecl {
+				hb.b.WriteString(methDecl[j].String())
+			}
+		} else {
+			for j := range typeDecl {
+				hb.b.WriteString(typeDecl[j].String())
+				hb.b.WriteString(methDecl[j].String())
+			}
+		}
+		mk := fmt.Sprintf("c := %s{%s: %s{V: %d}, X: %d}; _ = c; ", c, a, a, 10+k, k)
+		add := func(form, n, expr string, region string) {
+			cs := hxConsumer{Name: "defined." + form, Static: []string{n}, Probes: []hxP{{n, []string{n}}}}
+			hb.probe(cs, []string{n}, []string{n}, "func() string { "+mk+expr+" }()", fmt.Sprintf("defined %s %s config %d", form, n, cfg[n]), false)
+			p := hb.probes[len(hb.probes)-1]
+			p.NoCoq, p.Region = true, region
+			p.Cell = map[string]any{"form": form, "name": n, "declaredBy(A=1,B=2,C=4)": cfg[n], "ptrRecvC": ptrC[n], "methodsFollowTheirType": order == 1}
+		}
+		for _, n := range names {
+			hasC := cfg[n]&4 != 0 || cfg[n]&1 != 0 // declared on C, or promoted from A
+			hasD := cfg[n]&1 != 0                  // D only gets what is promoted from A
+			hasB := cfg[n]&3 != 0
+			if hasC {
+				add("call", n, "return c."+n+"()", "")
+				add("ptr-call", n, "p := &c; return p."+n+"()", "")
+				add("method-value", n, "f := c."+n+"; return f()", "")
+				if !(cfg[n]&4 != 0 && ptrC[n]) {
+					add("iface", n, "var i KD"+n+" = c; return i."+n+"()", "")
+					add("iface-assert", n, "var z KDZ = c; i, ok := z.(KD"+n+"); if !ok { return \"no\" }; return i."+n+"()", "")
+				}
+				add("iface-ptr", n, "var i KD"+n+" = &c; return i."+n+"()", "")
+				if n == "String" && !(cfg[n]&4 != 0 && ptrC[n]) {
+					add("fmt.Sprint", n, "return fmt.Sprint(c)", "")
+				}
+				if n == "String" {
+					add("fmt.Sprint-ptr", n, "return fmt.Sprint(&c)", "")
+				}
+			} else {
+				// the name is declared on B only: C does not have it
+				add("iface-assert-absent", n, "var z KDZ = c; _, ok := z.(KD"+n+"); return fmt.Sprint(ok)", "defined-methodset")
+			}
+			if hasB {
+				add("convert-to-B", n, "return "+b+"(c)."+n+"()", "")
+			}
+			if hasD {
+				add("D-call", n, "d := "+d+"(c); return d."+n+"()", "")
+				add("D-iface", n, "var i KD"+n+" = "+d+"(c); return i."+n+"()", "")
+			} else if hasC {
+				add("D-iface-assert-absent", n, "var z KDZ = "+d+"(c); _, ok := z.(KD"+n+"); return fmt.Sprint(ok)", "defined-methodset")
+			}
+		}
+		add("fields", "Z", "c.V = 5; c.X = 6; return fmt.Sprint(c.V, c."+a+".V, c.X, c.Z())", "")
+	}
+	return []*c05HostX{hb.finish("defined")}
+}
